@@ -5,7 +5,7 @@
    In both, M is the estimate in force when the last interval was selected (see C01_final_M_reading_refuted). *)
 From Coq Require Import Reals ZArith QArith List Bool Lra Lia.
 From IOptV Require Import AGP.Ops gen.MethodGen AGP.Impl AGP.Laws AGP.Termination AGP.Invariant AGP.Preserve AGP.Step AGP.RealOps
-  AGP.Optimality AGP.QOps AGP.Refuted AGP.OptimalityN AGP.RootN AGP.OptimalityBox Evolvent.Ev Evolvent.Dims Evolvent.ImageR.
+  AGP.Optimality AGP.QOps AGP.Refuted gen.SourceFacts AGP.Skeleton AGP.OptimalityN AGP.RootN AGP.OptimalityBox Evolvent.Ev Evolvent.Dims Evolvent.ImageR.
 Import ListNotations.
 
 (* for EVERY objective phi on [0,1] with Lipschitz constant H, every r > 1, eps, and every number k >= 1 of iterations
@@ -78,3 +78,31 @@ Theorem C01_final_M_reading_refuted :
             Qle_bool ((p_r cex_p * sM s / 2) * p_eps cex_p) (best_value s - cex_phi (7 # 8)) = true.
 Proof. exact final_M_reading_refuted. Qed.
 Print Assumptions C01_final_M_reading_refuted.
+
+(* the control flow the state machine mirrors is the control flow of the source: selection, recalculation, insertion, the
+   Solve loop and its stop rule, the update of the reported optimum and the local refinement *)
+Theorem C01_skeleton_tie :
+  sk_Method_FirstIteration = expected_sk_Method_FirstIteration /\
+  sk_Method_CalculateIterationPoint = expected_sk_Method_CalculateIterationPoint /\
+  sk_Method_RecalcAllCharacteristics = expected_sk_Method_RecalcAllCharacteristics /\
+  sk_Method_RenewSearchData = expected_sk_Method_RenewSearchData /\
+  sk_Method_CalculateM = expected_sk_Method_CalculateM /\
+  sk_Method_CalculateGlobalR = expected_sk_Method_CalculateGlobalR /\
+  sk_Method_CalculateNextPointCoordinate = expected_sk_Method_CalculateNextPointCoordinate /\
+  sk_SearchData_InsertDataItem = expected_sk_SearchData_InsertDataItem /\
+  sk_SearchData_InsertFirstDataItem = expected_sk_SearchData_InsertFirstDataItem /\
+  sk_SearchData_GetDataItemWithMaxGlobalR = expected_sk_SearchData_GetDataItemWithMaxGlobalR /\
+  sk_SearchData_RefillQueue = expected_sk_SearchData_RefillQueue /\
+  sk_SearchData_ClearQueue = expected_sk_SearchData_ClearQueue /\
+  sk_CharacteristicsQueue_Insert = expected_sk_CharacteristicsQueue_Insert /\
+  sk_CharacteristicsQueue_GetBestItem = expected_sk_CharacteristicsQueue_GetBestItem /\
+  sk_CharacteristicsQueue_init = expected_sk_CharacteristicsQueue_init /\
+  sk_SearchData_init = expected_sk_SearchData_init /\
+  sk_Process_DoGlobalIteration = expected_sk_Process_DoGlobalIteration /\
+  sk_Process_Solve = expected_sk_Process_Solve /\ sk_Method_CheckStopCondition = expected_sk_Method_CheckStopCondition /\
+  sk_Method_FinalizeIteration = expected_sk_Method_FinalizeIteration /\ sk_Method_CalculateFunctionals = expected_sk_Method_CalculateFunctionals /\
+  sk_Method_init = expected_sk_Method_init /\ gen_init_ok = true /\
+  sk_Method_UpdateOptimum = expected_sk_Method_UpdateOptimum /\ sk_Process_GetResults = expected_sk_Process_GetResults /\
+  refine_skeleton = expected_refine_skeleton /\ solver_evolvent_args = expected_solver_evolvent_args /\ evolvent_external_writes = [].
+Proof. repeat split; reflexivity. Qed.
+Print Assumptions C01_skeleton_tie.
